@@ -173,7 +173,7 @@ RCP<const Set> Interval::set_intersection(const RCP<const Set> &o) const
         }
     }
     if (is_a<Integers>(*o) or is_a<Naturals>(*o) or is_a<Naturals0>(*o)) {
-        if (is_a_Number(*start_) and is_a_Number(*end_)) {
+        if (not is_a<Infty>(*start_) and not is_a<Infty>(*end_)) {
             auto first = SymEngine::ceiling(start_);
             auto last = SymEngine::floor(end_);
             if (is_a<Naturals>(*o)
@@ -199,8 +199,7 @@ RCP<const Set> Interval::set_intersection(const RCP<const Set> &o) const
             }
             return finiteset(container);
         } else {
-            return SymEngine::set_intersection(
-                {rcp_from_this_cast<const Set>(), o});
+            return make_set_intersection({rcp_from_this_cast<const Set>(), o});
         }
     }
     if (is_a<UniversalSet>(*o) or is_a<EmptySet>(*o) or is_a<FiniteSet>(*o)
